@@ -3,6 +3,7 @@
 (* Trace validation for C19.  Event kinds:                                 *)
 (*  file events (one per call of a history, "start" first):                *)
 (*   {"tid", "seq", "kind": "file", "op": {name, mode, d},                 *)
+(*    "ptags": per row which additional cells it carries (see Export),     *)
 (*    "rows": [[d, i]]   the file re-read with csv.reader after the call,  *)
 (*                       each row identified ([0,0] = the expected header  *)
 (*                       row, [d,i] = tract i of description d, [-1,-1] =  *)
@@ -19,31 +20,35 @@ VARIABLES l, failed
 Trace == JsonDeserialize(IOEnv.TRACE_FILE)
 tvars == <<vars, l, failed>>
 TraceInit == l = 1 /\ failed = FALSE /\ exists = FALSE /\ rows = <<>> /\ writer = "none" /\ ret = None /\ hist = <<>>
-             /\ uid = -1 /\ uids = <<>>
+             /\ uid = -1 /\ uids = <<>> /\ ptags = <<>>
 
 ModelStep(o) ==      \* [rows, uids, uid, exists, writer, ret] after operation o in the current state
   CASE o.name = "start" -> [rows |-> IF o.mode = "exists" THEN <<H, <<2, 1>>>> ELSE <<>>, exists |-> o.mode = "exists",
-                            uids |-> IF o.mode = "exists" THEN Blank(2) ELSE <<>>, uid |-> -1, writer |-> "none", ret |-> None]
+                            uids |-> IF o.mode = "exists" THEN Blank(2) ELSE <<>>, uid |-> -1, writer |-> "none", ret |-> None,
+                            ptags |-> IF o.mode = "exists" THEN Zeros(2) ELSE <<>>]
     [] o.name = "csv" -> LET r2 == IF o.mode = "w" THEN <<H>> \o Rows(o.d) ELSE IF exists THEN rows \o Rows(o.d) ELSE rows \o <<H>> \o Rows(o.d)
                          IN [rows |-> r2, uids |-> IF o.mode = "w" THEN Blank(Len(r2)) ELSE uids \o Blank(Len(r2) - Len(rows)),
-                             uid |-> uid, exists |-> TRUE, writer |-> writer, ret |-> None]
+                             uid |-> uid, exists |-> TRUE, writer |-> writer, ret |-> None,
+                             ptags |-> IF o.mode = "w" THEN Zeros(Len(r2)) ELSE ptags \o Zeros(Len(r2) - Len(rows))]
     [] o.name = "winit" -> LET r2 == IF o.mode = "w" THEN <<H>> ELSE IF exists THEN rows ELSE <<H>>
                            IN [rows |-> r2, uids |-> IF o.mode = "w" \/ ~exists THEN Blank(Len(r2)) ELSE uids,
-                               uid |-> IF o.d = 0 THEN -1 ELSE o.d, exists |-> TRUE, writer |-> "open", ret |-> None]
+                               uid |-> IF o.d = 0 THEN -1 ELSE o.d, exists |-> TRUE, writer |-> "open", ret |-> None,
+                               ptags |-> IF o.mode = "w" \/ ~exists THEN [i \in 1..Len(r2) |-> IF o.p = 1 THEN PH ELSE 0] ELSE ptags]
     [] o.name = "wwrite" -> IF writer = "closed" THEN [rows |-> rows, uids |-> uids, uid |-> uid, exists |-> exists, writer |-> writer,
-                                                       ret |-> [kind |-> "RuntimeError", n |-> 0]]
+                                                       ret |-> [kind |-> "RuntimeError", n |-> 0], ptags |-> ptags]
                             ELSE [rows |-> IF o.d = 0 THEN rows ELSE rows \o Rows(o.d),
                                   uids |-> IF o.d = 0 THEN uids ELSE uids \o UidRows(uid, o.d),
                                   uid |-> IF uid < 0 THEN uid ELSE uid + 1, exists |-> exists, writer |-> writer,
-                                  ret |-> [kind |-> "count", n |-> IF o.d = 0 THEN 0 ELSE NTracts(o.d)]]
-    [] o.name = "wclose" -> [rows |-> rows, uids |-> uids, uid |-> uid, exists |-> exists, writer |-> "closed", ret |-> None]
-    [] o.name = "wopen" -> [rows |-> rows, uids |-> uids, uid |-> uid, exists |-> exists, writer |-> "open", ret |-> None]
+                                  ret |-> [kind |-> "count", n |-> IF o.d = 0 THEN 0 ELSE NTracts(o.d)],
+                                  ptags |-> IF o.d = 0 THEN ptags ELSE ptags \o [i \in 1..NTracts(o.d) |-> o.p]]
+    [] o.name = "wclose" -> [rows |-> rows, uids |-> uids, uid |-> uid, exists |-> exists, writer |-> "closed", ret |-> None, ptags |-> ptags]
+    [] o.name = "wopen" -> [rows |-> rows, uids |-> uids, uid |-> uid, exists |-> exists, writer |-> "open", ret |-> None, ptags |-> ptags]
 
 Consume ==
   /\ l <= Len(Trace) /\ l' = l + 1 /\ hist' = <<>>
   /\ LET ev == Trace[l] IN
      IF ev.kind = "records"
-     THEN /\ UNCHANGED <<exists, rows, writer, ret, failed, uid, uids>>
+     THEN /\ UNCHANGED <<exists, rows, writer, ret, failed, uid, uids, ptags>>
           /\ LET clause == IF ev.exc # "none" THEN "exception_raised"
                            ELSE IF ev.n_records # ev.n_tracts THEN "not_one_record_per_tract"
                            ELSE IF ~ev.order_ok THEN "records_out_of_order"
@@ -61,12 +66,13 @@ Consume ==
                         ELSE IF ev.rows # m.rows THEN "rows_differ_from_header_plus_one_row_per_tract"
                         ELSE IF m.ret.kind = "count" /\ ev.ret.n # m.ret.n THEN "write_returned_wrong_count"
                         ELSE IF ev.uids # m.uids THEN "uid_column_differs"
+                        ELSE IF ev.ptags # m.ptags THEN "additional_columns_differ"
                         ELSE IF ~ev.cells_ok THEN "cell_differs_from_attribute"
                         ELSE "ok"
-          IN IF skip THEN UNCHANGED <<exists, rows, writer, ret, failed, uid, uids>>
+          IN IF skip THEN UNCHANGED <<exists, rows, writer, ret, failed, uid, uids, ptags>>
              ELSE /\ (IF clause = "ok" THEN TRUE ELSE PrintT(<<"FAIL", ev.tid, clause, ev.seq>>))
                   /\ failed' = (clause # "ok")
-                  /\ rows' = m.rows /\ exists' = m.exists /\ writer' = m.writer /\ ret' = m.ret /\ uid' = m.uid /\ uids' = m.uids
+                  /\ rows' = m.rows /\ exists' = m.exists /\ writer' = m.writer /\ ret' = m.ret /\ uid' = m.uid /\ uids' = m.uids /\ ptags' = m.ptags
 TraceSpec == TraceInit /\ [][Consume]_tvars
 AllConsumed ==
   /\ PrintT(<<"INFO", "consumed", TLCGet("stats").diameter - 1, Len(Trace)>>)
